@@ -152,6 +152,36 @@ class Timeout(BaseException):
     pass
 
 
+def decide_by_int_enumeration(ctx, pc, negf, limit=4000, timeout_ms=20000):
+    """fallback for a final query the solver answered `unknown` (typically products of bounded integer coefficients):
+    let the solver enumerate the assignments of the *bounded integer* variables that satisfy base + path condition and decide
+    the (then much simpler) query for each.  Sound and complete inside the bounds.  -> ('unsat'|'sat'|'unknown', model-or-None)"""
+    ints = [(n, z3.Int(n)) for i, n in enumerate(ctx.names) if i in ctx.bounded]
+    if not ints:
+        return 'unknown', None
+    s2 = z3.Solver(); s2.set('timeout', timeout_ms)
+    s2.add(*ctx.base); s2.add(*pc)
+    n = 0
+    while n < limit:
+        r = s2.check()
+        if r == z3.unsat:
+            return 'unsat', None
+        if r != z3.sat:
+            return 'unknown', None
+        m = s2.model()
+        vals = [(v, m.eval(v, model_completion=True)) for _, v in ints]
+        s3 = z3.Solver(); s3.set('timeout', timeout_ms)
+        s3.add(*ctx.base); s3.add(*pc); s3.add(negf); s3.add(*[v == c for v, c in vals])
+        r3 = s3.check()
+        if r3 == z3.sat:
+            return 'sat', s3
+        if r3 != z3.unsat:
+            return 'unknown', None
+        s2.add(z3.Or([v != c for v, c in vals]))
+        n += 1
+    return 'unknown', None
+
+
 def cvc5_verdict(smt2_text, timeout_ms=20000):
     """second opinion on a final query: cvc5 (python wheel) on the SMT-LIB2 text exported by z3 -> 'sat' | 'unsat' | 'unknown'"""
     import cvc5
@@ -249,6 +279,12 @@ def run_job(spec):
                     res['discharged'] += 1; r = z3.unsat
                 else:
                     s.push(); s.add(z3.Not(f)); r = s.check()
+                    sat_solver = s
+                    if r == z3.unknown:
+                        v_, s3_ = decide_by_int_enumeration(ctx, pc, z3.Not(f))
+                        res['unknown_resolved_by_enumeration'] = res.get('unknown_resolved_by_enumeration', 0) + (v_ != 'unknown')
+                        if v_ == 'unsat': r = z3.unsat
+                        elif v_ == 'sat': r = z3.sat; sat_solver = s3_
                     if cross_rate and str(r) in ('sat', 'unsat') and rng.random() < cross_rate:
                         try:
                             v2 = cvc5_verdict(s.to_smt2())
@@ -264,7 +300,7 @@ def run_job(spec):
                     elif r == z3.sat:
                         res['sat'] += 1; path_ok = False
                         if ob.sig not in seen_sigs and len(res['cex']) < max_cex:
-                            vals = ctx.dyadic_values(s)
+                            vals = ctx.dyadic_values(sat_solver)
                             if vals is None:
                                 res['unknown'] += 1
                             else:
